@@ -109,10 +109,11 @@ C12Texts == {Single(RD("s_v20", "i1", "m_ok", "o_a")), Single(RD("s_v20", "i1", 
              Single(RD("s_v20", Absent, "m_ok", Absent)),
              Batch(<<RD("s_v20", "i1", "m_ok", Absent), RD("s_v20", Absent, "m_exc", Absent), RD("s_v20", "i2", "m_unk", "a_1")>>),
              Batch(<<RD("s_v20", "i1", "m_perr", Absent), RD("s_v20", "i0", "m_one", Absent)>>),
+             Batch(<<RD("s_v20", "i1", "m_ok", Absent)>>),                       \* a batch of one element
              Single(RD("s_v10", "i1", "m_ok", Absent)), Batch(<<>>), NotJson("garbage")}
 C12TextsSmall == {Single(RD("s_v20", "i1", "m_ok", "o_a")), Single(RD("s_v20", "i1", "m_unk", Absent)),
                   Batch(<<RD("s_v20", "i1", "m_ok", Absent), RD("s_v20", Absent, "m_exc", Absent)>>)}
-KindFl2 == {<<"sync", "plain">>, <<"async", "coro">>}
+KindFl2 == {<<"sync", "plain">>, <<"async", "coro">>, <<"asyncseq", "coro">>}      \* asyncseq: the asynchronous dispatcher with concurrent_batch switched off
 InitC12(n) == \E kf \in KindFl2, st \in SeqsUpTo(MwKinds, n), eh \in EhTables, t \in C12Texts :
                  InitWith(Cfg(kf[1], "unset", st, eh, DefPerr, "ValueError", kf[2]), t)
 InitC12Quick == \/ InitC12(2)
